@@ -564,6 +564,8 @@ pub fn gen_model(rng: &mut Rng, o: char, v: char, c: char) -> QpModel {
                     2 => (infinite_value(rng, infinity), -infinite_value(rng, infinity)),
                     _ => (-infinite_value(rng, infinity), infinite_value(rng, infinity)),
                 },
+                // fractional bounds around 0 and 1 (declared integer stays integer)
+                8 => *rng.pick(&[(0.0, 1.5), (-0.5, 0.5), (0.5, 1.0), (0.25, 1.75), (-0.75, 1.0), (0.0, 0.5), (1.0, 1.5)]),
                 7 => {
                     // fractional bounds with at least one integer between them
                     let a = rng.range(-4, 4) as f64;
